@@ -13,7 +13,8 @@ Bounded exhaustive enumeration on the real implementation (``Environment(extra=T
   too; any deviation is re-run alone to tell a binding error from a cross-call leak.
   Side dimensions: where an outer-variable default gets its value (render argument / assign
   before the macro / re-assigned after the macro = documented late binding), the default
-  ``Undefined`` (renders empty) versus a marker subclass, quoted macro name + comma style.
+  ``Undefined`` (renders empty) versus a marker subclass, quoted macro name + comma style,
+  render arguments named like the parameters (an unbound parameter is undefined, not the global).
 * families ``falsy`` (nil/false/'' arguments still bind), ``dispatch`` (two macros, calls go to
   the named one, repeated calls), ``order`` (calls before definition and to unknown macros
   are executed but *excluded*: neither statement nor docs say what they render; the call
@@ -53,7 +54,11 @@ class MarkerUndefined(Undefined):
 _ENVS: dict[str, Any] = {}
 
 
+SHADOW_DATA = {"p": "Xp", "q": "Xq", "r": "Xr"}  # render arguments named like the parameters
+
+
 def get_env(kind: str) -> Any:
+    kind = kind.split("+")[0]
     env = _ENVS.get(kind)
     if env is None:
         if kind == "marker":
@@ -68,7 +73,7 @@ def get_env(kind: str) -> Any:
 
 
 def undef_text(envk: str) -> str:
-    return M.UNDEF if envk == "marker" else ""
+    return M.UNDEF if envk.split("+")[0] == "marker" else ""
 
 
 SIGS = M.signatures()
@@ -95,6 +100,13 @@ def callset(name: str) -> list[M.Call]:
             raise KeyError(name)
         _CALLSETS[name] = cs
     return cs
+
+
+def is_uniform_prefix(sig: M.Sig) -> bool:
+    """(), (p), (p,q), (p,q,r) with one default kind throughout: the quick tier runs every textual
+    interleaving of positional and keyword arguments only for these 10 signatures (the split into
+    positional and keyword arguments happens before, and independently of, the signature)."""
+    return [n for n, _ in sig] == list(M.PNAMES[: len(sig)]) and len({k for _, k in sig}) <= 1
 
 
 FALSY = (("nil", ""), ("false", "false"), ("''", ""))
@@ -167,6 +179,9 @@ class BindSpec:
 
     def head(self) -> tuple[str, dict[str, Any]]:
         pre, post, data = M.mode_prefix(self.sig, self.mode)
+        if self.envk.endswith("+g"):
+            # "otherwise to undefined": an unbound parameter must not fall through to a global
+            data.update(SHADOW_DATA)
         return pre + M.macro_source(self.sig, style=self.style) + post, data
 
     def call_src(self, c: M.Call) -> str:
@@ -459,7 +474,7 @@ def plan(tier: str) -> list[tuple[int, tuple[Any, ...]]]:
             jobs.append((hi - lo, ("bind", i, cs, lo, hi, mode, envk, style)))
 
     for i, sig in enumerate(SIGS):
-        if tier == "thorough" or M.is_canonical(sig):
+        if tier == "thorough" or is_uniform_prefix(sig):
             bind(i, "all", n_all, "G", "marker", 0)
         else:
             bind(i, "edge", n_edge, "G", "marker", 0)
@@ -471,6 +486,8 @@ def plan(tier: str) -> list[tuple[int, tuple[Any, ...]]]:
                     bind(i, side, n_side, mode, "marker", 0)
         bind(i, side, n_side, "G", "default", 0)
         bind(i, side, n_side, "G", "marker", 1)
+        if sig:
+            bind(i, side, n_side, "G", "marker+g", 0)
     n_small = len(callset("small"))
     n_l1, n_l2 = len(callset("last1")), len(callset("last2"))
     for i in CANON:
@@ -496,10 +513,11 @@ class C27(Check):
         "bind: product of every macro signature (ordered lists of 0..3 distinct parameters over {p,q,r}, each "
         "with no / literal / outer-variable default: 226) and every call (0..4 positional, 0..3 keyword "
         "arguments named over {p,q,r,x,y} with duplicates, in every textual interleaving: 9705); quick runs "
-        "all interleavings for the 64 signatures in canonical order and keywords-last/keywords-first calls "
-        "(1400) for the 162 permuted ones, thorough the full product. Side dimensions on keywords-last calls: "
+        "all interleavings for the 10 signatures (),(p),(p,q),(p,q,r) x uniform default kind and the "
+        "keywords-last/keywords-first calls (1400) for the other 216, thorough the full product. Side dimensions on keywords-last calls: "
         "outer-variable default from assign / re-assigned after the macro (late binding), default Undefined, "
-        "quoted-name+comma style. Calls run 8 per template; a deviating call is re-run alone. "
+        "quoted-name+comma style, render arguments named like the parameters. Calls run 8 per template; a "
+        "deviating call is re-run alone. "
         "falsy/dispatch/order/cross: nil,false,'' arguments; two macros; calls before definition and to "
         "unknown macros (executed, excluded, the following call checked); call arguments reading a with "
         "variable. with: every forest of <=3 (thorough 4) with tags x 6 argument lists per tag x 22 outer "
@@ -521,10 +539,10 @@ class C27(Check):
         return {
             "signatures": "226 (0..3 params over {p,q,r}, all orders, default none/literal/variable)",
             "calls": "0..4 positional x 0..3 keyword over 5 names x all interleavings = 9705"
-            + (" (all for 64 canonical-order signatures; keywords-last+first = 1400 for the other 162)"
+            + (" (all for the 10 uniform-default prefix signatures; keywords-last+first = 1400 for the other 216)"
                if tier == "quick" else " for every signature and for default sources G, A, L"),
             "side_dimensions": "default source {render arg, assign, late re-assign}, Undefined {marker, default}, "
-            "style {bare, quoted+comma} on " + ("155 keywords-last calls (<=2 kw)" if tier == "quick"
+            "style {bare, quoted+comma}, globals named p,q,r {absent, present} on " + ("155 keywords-last calls (<=2 kw)" if tier == "quick"
                                                 else "1400 keywords-last/first calls (A,L: all 9705)"),
             "with": f"forests of <= {3 if tier == 'quick' else 4} with tags, 6 argument lists per tag, 22 outer contexts",
         }
